@@ -27,6 +27,7 @@ type PropCfg struct {
 	SafetyFuncs []string `json:"safety_funcs"` // zero-annotation no-panic sweep (safety obligations only)
 	Safety      bool     `json:"safety"`
 	NoSafety    []string `json:"nosafety_funcs"` // functions of the list whose safety obligations are not claimed (stated in residue)
+	NoSafetyObl []string `json:"nosafety_obligations"` // single safety obligations not claimed: "<func>#<kind>.<label>" without the ~n ordinal (assumed, stated in residue)
 	Arith       bool     `json:"arith"`
 	Lemmas      []string `json:"lemmas"`
 	Trusted     []string `json:"trusted_base"`
@@ -203,6 +204,10 @@ func main() {
 			if !tagMatch(o.Tags, *prop) {
 				continue
 			}
+			if o.Safety && unclaimedSafety(cfg.NoSafetyObl, o.Name) {
+				ev.addAssumption("safety obligation not claimed (assumed, see residue): " + short(o.Name))
+				continue
+			}
 			jobs = append(jobs, job{r, o})
 		}
 	}
@@ -353,6 +358,19 @@ func sanitizeFile(s string) string {
 // every obligation of the functions it lists, because callers rely on all clauses of a callee's contract.
 func tagMatch(tags []string, prop string) bool {
 	return true
+}
+
+// unclaimedSafety: the obligation name without its ~n ordinal is listed in nosafety_obligations
+func unclaimedSafety(list []string, name string) bool {
+	if i := strings.LastIndex(name, "~"); i >= 0 {
+		name = name[:i]
+	}
+	for _, l := range list {
+		if short(l) == short(name) {
+			return true
+		}
+	}
+	return false
 }
 
 func full(k string) string {
